@@ -3,13 +3,36 @@ namespace MaddyVerif.Expect.FuncSkelC16
 
 /-- (declaration, fingerprint of its normalised text): comments, layout, local names and log/trace statements do not count -/
 def funcs : List (String × String) := [
+  ("framework/exterrors/fields.go:Fields", "ed10ad47d4219ce7"),
+  ("framework/exterrors/fields.go:WithFields", "ad2c01392092d466"),
+  ("framework/exterrors/fields.go:fieldsWrap.Error", "9036cc11a5ff8b4b"),
+  ("framework/exterrors/fields.go:fieldsWrap.Fields", "c22c8db083581f30"),
+  ("framework/exterrors/fields.go:fieldsWrap.Unwrap", "3083d33208f41a04"),
+  ("framework/exterrors/fields.go:type fieldsErr", "f9cc6b0a2dd9add8"),
+  ("framework/exterrors/fields.go:type fieldsWrap", "c425ba7968fc85c5"),
+  ("framework/exterrors/fields.go:type unwrapper", "3cd69e101141c2f6"),
+  ("framework/exterrors/smtp.go:EnhancedCode.FormatLog", "f5a682a6cbd7d546"),
   ("framework/exterrors/smtp.go:SMTPCode", "8e8283c6d3e0324b"),
   ("framework/exterrors/smtp.go:SMTPEnchCode", "5d062981f9b13927"),
+  ("framework/exterrors/smtp.go:SMTPError.Error", "8b2c23b6cab9a837"),
+  ("framework/exterrors/smtp.go:SMTPError.Fields", "4b894b03da189435"),
   ("framework/exterrors/smtp.go:SMTPError.Temporary", "64271985bc83dc32"),
+  ("framework/exterrors/smtp.go:SMTPError.Unwrap", "567a7de837dddd39"),
+  ("framework/exterrors/smtp.go:type EnhancedCode", "92533b0ac48a9395"),
+  ("framework/exterrors/smtp.go:type SMTPError", "3c01c0fe08789e21"),
+  ("framework/exterrors/temporary.go:IsTemporary", "1f48c38249861078"),
   ("framework/exterrors/temporary.go:IsTemporaryOrUnspec", "08ff47f63bc5e9bd"),
+  ("framework/exterrors/temporary.go:WithTemporary", "9a90c4dab7f210a4"),
+  ("framework/exterrors/temporary.go:temporaryErr.Error", "c42b85b7a27de591"),
+  ("framework/exterrors/temporary.go:temporaryErr.Temporary", "b2955f950480eeb9"),
+  ("framework/exterrors/temporary.go:temporaryErr.Unwrap", "11a18a45d66bab1c"),
+  ("framework/exterrors/temporary.go:type TemporaryErr", "67a9fed30cd12401"),
+  ("framework/exterrors/temporary.go:type temporaryErr", "31c98beda7d1d80a"),
   ("internal/endpoint/smtp/session.go:Endpoint.wrapErr", "aca3119c6bbb506c"),
   ("internal/msgpipeline/config.go:parseRejectDirective", "8088995939f9593b"),
-  ("internal/target/queue/queue.go:toSMTPErr", "22651b4e75b94c9a")
+  ("internal/smtpconn/smtpconn.go:C.wrapClientErr", "061f2b3d64b9f03c"),
+  ("internal/target/queue/queue.go:toSMTPErr", "22651b4e75b94c9a"),
+  ("internal/target/remote/connect.go:remoteDelivery.newConn", "76385034d8cea661")
 ]
 
 end MaddyVerif.Expect.FuncSkelC16
